@@ -36,6 +36,8 @@ pub enum Ev {
     Reg { name: u8, ctx: u8, kind: RegKind, resume_head: bool },
     Unreg { name: u8, ctx: u8 },
     Boom { name: u8, ctx: u8 },
+    /// a frame on which the handler unregisters itself (its closure appends `<name>.unregister`)
+    SelfStop { name: u8, ctx: u8 },
     Probe { ctx: u8 },
 }
 
@@ -53,6 +55,7 @@ pub fn strategy() -> BoxedStrategy<C16Case> {
             .prop_map(|(name, ctx, kind, resume_head)| Ev::Reg { name, ctx, kind, resume_head }),
         2 => (0u8..2, 0u8..2).prop_map(|(name, ctx)| Ev::Unreg { name, ctx }),
         2 => (0u8..2, 0u8..2).prop_map(|(name, ctx)| Ev::Boom { name, ctx }),
+        1 => (0u8..2, 0u8..2).prop_map(|(name, ctx)| Ev::SelfStop { name, ctx }),
         4 => (0u8..2).prop_map(|ctx| Ev::Probe { ctx }),
     ];
     (
@@ -79,6 +82,7 @@ fn script(name: &str, version: usize, kind: &RegKind, resume_head: bool) -> Stri
   {resume}
   run: {{|frame|
     if $frame.topic == "boom.{name}" {{ error make {{msg: "boom"}} }}
+    if $frame.topic == "quit.{name}" {{ null | .append "{name}.unregister"; return }}
     if $frame.topic != "probe" {{ return }}
     "v{version}"
   }}
@@ -133,6 +137,7 @@ fn run_in(case: &C16Case, nu: &mut Nu) -> Result<CaseInfo, Fail> {
     let mut replaced_or_error_then_probe = false;
     let mut had_stop = false;
     let mut identical_redeploy = false;
+    let mut self_stopped = false;
     // (context, name) pairs whose failing trigger is in the stream: a handler resuming from
     // head would replay it and stop at once, so such registrations resume from the tail
     let mut boomed: std::collections::BTreeSet<(u8, u8)> = Default::default();
@@ -273,6 +278,29 @@ fn run_in(case: &C16Case, nu: &mut Nu) -> Result<CaseInfo, Fail> {
                     had_stop = true;
                 }
             }
+            Ev::SelfStop { name, ctx } => {
+                let n = NAMES[*name as usize];
+                nu.append(&format!("quit.{n}"), ctxs[*ctx as usize], None, None)?;
+                // (like a historical failing trigger: an instance resuming from history would meet it again)
+                boomed.insert((*ctx, *name));
+                if let Some(i) = active.remove(&(*ctx, *name)) {
+                    let id = insts[i].reg.id.clone();
+                    let (_, ok) = nu.wait(t20, |fr| {
+                        fr.iter().any(|w| w.topic == format!("{n}.unregistered") && meta_of(w, "handler_id").as_deref() == Some(&id))
+                    })?;
+                    if !ok {
+                        return Err(life(format!(
+                            "instance {id} of {n} appended {n}.unregister from its own closure but never announced {n}.unregistered (8 s): it does not stop"
+                        )));
+                    }
+                    insts[i].stopped_by_error = Some(false);
+                    had_stop = true;
+                    self_stopped = true;
+                    let p = nu.append("probe", ctxs[*ctx as usize], None, None)?;
+                    let must: Vec<usize> = active.iter().filter(|((c, _), _)| c == ctx).map(|(_, i)| *i).collect();
+                    probes.push((p, *ctx, must, vec![]));
+                }
+            }
             Ev::Probe { ctx } => {
                 do_probe(nu, *ctx, &insts, &active, &mut probes)?;
                 if had_stop {
@@ -367,6 +395,7 @@ fn run_in(case: &C16Case, nu: &mut Nu) -> Result<CaseInfo, Fail> {
         (had_stop, "some-instance-stopped"),
         (insts.iter().any(|i| !i.valid), "invalid-registration"),
         (identical_redeploy, "re-register-with-identical-script"),
+        (self_stopped, "handler-unregisters-itself"),
     ] {
         if on {
             labels.push(name.to_string());
